@@ -121,6 +121,7 @@ class Cell:
         shards_thorough=None,
         shards_quick=None,
         weight=1.0,
+        case_limit=None,
     ):
         self.name = name
         self.strategy = strategy  # hypothesis strategy or callable(tier)->strategy
@@ -135,6 +136,9 @@ class Cell:
         self.shards_thorough = shards_thorough
         self.shards_quick = shards_quick
         self.weight = weight
+        # wall-clock budget of ONE generated case in seconds (None: CASE_LIMIT_DEFAULT); a case that exceeds it makes its shard
+        # "inconclusive" (recorded in the evidence) - a time budget hit is never a violation and never hangs the run
+        self.case_limit = case_limit
 
 
 def in_repo_traceback(exc):
@@ -159,6 +163,75 @@ def load_known(prop_id):
 # --------------------------------------------------------------------------------------
 
 _PROP = {}  # populated in the parent before fork: id, cells, known, matchers
+CASE_LIMIT_DEFAULT = float(os.environ.get("VERIF_CASE_LIMIT", "900"))
+_CASE_T0 = [None, None, None]  # [start time of the running case, its limit, shared double mirrored for the parent]
+WATCHDOG_EXIT = 97
+
+
+def _empty_result(cell_name, shard):
+    return {"cell": cell_name, "shard": shard, "evals": 0, "nontrivial": set(), "classes": {}, "samples": [], "known_hits": {},
+            "violation": None, "discarded": 0, "excluded": None, "error": None, "wall": 0.0}
+
+
+def _child_main(task, conn, beat):
+    _CASE_T0[2] = beat  # shared double: start time of the running case (read by the parent, which owns the kill switch:
+    #                     a thread in this process could not run while the main thread sits in C code holding the GIL)
+    try:
+        res = _run_cell_shard(task)
+        conn.send(res)
+        conn.close()
+    finally:
+        os._exit(0)
+
+
+def _run_tasks_parallel(tasks, nproc):
+    """Fork one process per task (at most nproc at a time).  A worker whose current case exceeds its budget kills itself; the
+    parent records that shard as inconclusive instead of waiting for ever (multiprocessing.Pool would hang on a lost worker)."""
+    from multiprocessing.connection import wait as mp_wait
+
+    ctx = mp.get_context("fork")
+    pending = list(tasks)
+    running = {}
+    results = []
+    while pending or running:
+        while pending and len(running) < nproc:
+            t = pending.pop(0)
+            r, w = ctx.Pipe(duplex=False)
+            beat = ctx.Value("d", time.time(), lock=False)
+            p = ctx.Process(target=_child_main, args=(t, w, beat))
+            p.start()
+            w.close()
+            running[r] = (p, t, beat)
+        ready = mp_wait(list(running), timeout=1.0)
+        for r in list(running):
+            p, t, beat = running[r]
+            res = None
+            killed = False
+            lim = _PROP["cells"][t[0]].case_limit or CASE_LIMIT_DEFAULT
+            if r not in ready and p.is_alive() and beat.value > 0 and time.time() - beat.value > lim:
+                p.kill()
+                p.join()
+                killed = True
+            if not killed and (r in ready or (not p.is_alive() and r.poll(0))):
+                try:
+                    res = r.recv()
+                except (EOFError, OSError):
+                    res = None
+            elif p.is_alive() and not killed:
+                continue
+            p.join()
+            r.close()
+            del running[r]
+            if res is None:
+                cell = _PROP["cells"][t[0]]
+                res = _empty_result(cell.name, t[1])
+                if killed:
+                    res["timeout"] = "a generated case exceeded its time budget of %g s; the shard is inconclusive" % (
+                        cell.case_limit or CASE_LIMIT_DEFAULT)
+                else:
+                    res["error"] = "worker process ended with exit status %s without reporting" % p.exitcode
+            results.append(res)
+    return results
 
 
 def _run_cell_shard(args):
@@ -224,6 +297,8 @@ def _run_cell_shard_inner(cell, res, shard, n_examples, seed_val, tier):
     import hypothesis
     from hypothesis import HealthCheck, Phase, given, settings
 
+    if _CASE_T0[2] is not None:
+        _CASE_T0[2].value = -1.0  # building the operation: not timed
     if cell.build is not None:
         try:
             cell.build()
@@ -254,6 +329,9 @@ def _run_cell_shard_inner(cell, res, shard, n_examples, seed_val, tier):
 
     def body(case):
         res["evals"] += 1
+        _CASE_T0[0], _CASE_T0[1] = time.time(), (cell.case_limit or CASE_LIMIT_DEFAULT)
+        if _CASE_T0[2] is not None:
+            _CASE_T0[2].value = _CASE_T0[0]
         if cell.classify is not None:
             try:
                 c = cell.classify(case)
@@ -461,9 +539,7 @@ def run_property(prop_id, cells, *, rule, assumptions=(), matchers=None, tier="q
     if nproc <= 1 or len(tasks) == 1:
         results = [_run_cell_shard(t) for t in tasks]
     else:
-        ctx = mp.get_context("fork")
-        with ctx.Pool(nproc) as pool:
-            results = list(pool.imap_unordered(_run_cell_shard, tasks, chunksize=1))
+        results = _run_tasks_parallel(tasks, nproc)
     results.sort(key=lambda r: (r["cell"], r["shard"]))
 
     # aggregate
@@ -475,6 +551,7 @@ def run_property(prop_id, cells, *, rule, assumptions=(), matchers=None, tier="q
     excluded = {}
     known_hits = {}
     samples = []
+    timeouts = []
     for r in results:
         evals += r["evals"]
         nontriv |= r["nontrivial"]
@@ -495,6 +572,9 @@ def run_property(prop_id, cells, *, rule, assumptions=(), matchers=None, tier="q
             violations.append({"cell": r["cell"], **r["violation"]})
         if r["error"]:
             errors.append({"cell": r["cell"], "error": r["error"]})
+        if r.get("timeout"):
+            timeouts.append({"cell": r["cell"], "shard": r["shard"], "note": r["timeout"]})
+            print("INCONCLUSIVE property=%s cell=%s shard=%s: %s" % (prop_id, r["cell"], r["shard"], r["timeout"]))
 
     # generator-deficiency check: required classes must be hit
     if require_classes and not violations and not errors:
@@ -536,6 +616,7 @@ def run_property(prop_id, cells, *, rule, assumptions=(), matchers=None, tier="q
         "known_findings_excluded_cases": known_hits,
         "violating_cells": [v["cell"] for v in violations],
         "harness_errors": errors,
+        "inconclusive_shards_time_budget": timeouts,
     }
     if extra_coverage:
         coverage.update(extra_coverage() if callable(extra_coverage) else extra_coverage)
